@@ -227,7 +227,9 @@ func regexpNext(sb *strings.Builder, sl *stringLexer, mode Mode) error {
 		}
 		// "**" only acts as globstar if it is alone as a path element.
 		singleBefore := sl.i == 1 || sl.last() == '/'
-		if sl.peekNext() == '*' {
+		// In "a**(b)", the second star starts the extended pattern "*(b)".
+		extGroup := mode&ExtendedOperators != 0 && strings.HasPrefix(sl.peekRest(), "*(")
+		if sl.peekNext() == '*' && !extGroup {
 			sl.i++
 			singleAfter := sl.i == len(sl.s) || sl.peekNext() == '/'
 			if mode&NoGlobStar == 0 && singleBefore && singleAfter {
